@@ -1,5 +1,5 @@
 """C05 — encrypt then decrypt restores every string and stream."""
-import json, os, copy, glob, random
+import json, os, copy, glob, random, re
 from concurrent.futures import ThreadPoolExecutor
 import vlib
 from vlib import Check, tlc, run_bin, workdir, write_ndjson, read_ndjson, log
@@ -8,7 +8,7 @@ META = {
     "property_id": "C05",
     "level": "model_checking",
     "technique": "TLA+ spec (Security/SecuritySys: security-handler life-cycle with symbolic crypto) model-checked by TLC as the code is "
-                 "and as repaired; every TLC-generated call sequence replayed into lopdf; recorded lopdf call sequences validated by "
+                 "and with the repaired defects seeded back; every TLC-generated call sequence replayed into lopdf; recorded lopdf call sequences validated by "
                  "Trace_Security (declarative Judge + impl-shaped Step)",
     "text": "TLC explores every sequence (depth <= 5 quick / 7 thorough) of MakeState, Encrypt, Decrypt(pw), AuthUser/AuthOwner/Auth(pw), Save, "
             "Load over small documents (strings nested in arrays/dictionaries, binary/empty/Metadata/XRef streams, strings in stream "
@@ -30,8 +30,10 @@ META = {
 
 # Confirmed deviations of the code (DESIGN 2.9): TRUE = the impl-shaped layer behaves as lopdf does today.  When a fix is
 # applied to /repo, set its switch to False here and move the finding to "fixed" in known_findings/C05.json.
-# (C05_DEV="h12:0,h13:0" overrides for experiments against a scratch worktree.)
-DEV = {"h12": False, "h13": True, "t127": True, "mdict": True, "dparr": True}
+# All five are repaired (fix: 44ea712 h12, 48a6296 h13, 4d4c742 t127, 54b8438 dparr, 9164604 mdict); the tags are computed
+# by the declarative Judge from the input class, so a defect that comes back is reported under its old signature.
+# (C05_DEV="h12:1,h13:1" overrides for experiments against a scratch worktree that lacks a fix.)
+DEV = {"h12": False, "h13": False, "t127": False, "mdict": False, "dparr": False}
 DEV_TAG = {"h12": "owner.R234.key", "h13": "streamdict.string", "t127": "pw.gt127.R56", "mdict": "metadata.nonstream", "dparr": "crypt.dparray"}
 
 
@@ -47,7 +49,7 @@ def with_dev(cfg_name, w, flags):
     """copy of spec/<cfg_name> whose Dev_* constants are set from `flags` (written to the work directory)"""
     t = open(os.path.join(vlib.SPEC, cfg_name)).read()
     for k, v in flags.items():
-        t = t.replace("Dev_%s = TRUE" % k, "Dev_%s = %s" % (k, "TRUE" if v else "FALSE"))
+        t = re.sub(r"Dev_%s = (TRUE|FALSE)" % k, "Dev_%s = %s" % (k, "TRUE" if v else "FALSE"), t)
     p = os.path.join(w, cfg_name)
     with open(p, "w") as f:
         f.write(t)
@@ -193,7 +195,10 @@ def triage(chk, events, verdicts, inputs_by_case=None, predicted=None):
                 chk.traces += 1
             if pred is not None:
                 p = pred[k]
-                if p["rel"] != c["rel"] and c["call"] in ("Decrypt", "AuthUser", "AuthOwner", "Auth"):
+                # ("unsure": the harness could not decide independently of the convention for characters without a
+                # PDFDocEncoding code - e.g. a non-Latin owner password at R <= 4 - the call is not judged then)
+                if c["call"] in ("Decrypt", "AuthUser", "AuthOwner", "Auth") and \
+                        any(p["rel"][k] != c["rel"][k] and c["rel"][k] != "unsure" for k in ("u", "o")):
                     raise vlib.ToolError("password relation computed by the harness %s differs from the spec's %s (token %s)" % (c["rel"], p["rel"], p["tok"]))
                 if sorted(p["tags"]) != sorted(tags) and ok_tags(tags):
                     drift += 1   # the model predicted a deviation the code does not show (or another ok class)
@@ -289,8 +294,9 @@ def run(tier):
                    xmx="4g" if quick else "8g", name="c05-asis")
 
     def mc_rep():
-        return tlc("MC_Security.tla", "MC_Security_%s_repaired.cfg" % tier, workers=3 if quick else 6, timeout=3000,
-                   xmx="3g" if quick else "6g", name="c05-repaired")
+        # negative control of the declarative Judge: the five repaired defects seeded back into the design
+        return tlc("MC_Security.tla", "MC_Security_%s_seeded.cfg" % tier, workers=3 if quick else 6, timeout=3000,
+                   xmx="3g" if quick else "6g", name="c05-seeded")
 
     def record():
         tr, ins = os.path.join(w, "rec.ndjson"), os.path.join(w, "rec.inputs.ndjson")
@@ -320,11 +326,19 @@ def run(tier):
             mc_tags |= set(last["tags"])
     if set(ACTIONS) - taken:
         raise vlib.ToolError("vacuous model run: actions never taken: %s" % sorted(set(ACTIONS) - taken))
-    # TLC itself must find exactly the listed deviations in the design as the code is, and none in the repaired design
+    # TLC itself must find exactly the listed (not yet repaired) deviations in the design as the code is - none since the
+    # five fix: commits - and exactly the five former ones when they are seeded back
     if mc_tags != known_tags:
         raise vlib.ToolError("model as the code is: TLC found %s, expected exactly %s" % (sorted(mc_tags), sorted(known_tags)))
     chk.extra["mc_counterexample_classes_as_code_is"] = sorted(mc_tags)
-    chk.extra["mc_states_as_repaired"] = rr.distinct
+    seeded_tags = set()
+    for g in rr.tagged("REPLAY"):
+        if not g["calls"][-1]["ok"]:
+            seeded_tags |= set(g["calls"][-1]["tags"])
+    if seeded_tags != set(DEV_TAG.values()):
+        raise vlib.ToolError("model with the repaired defects seeded back: TLC found %s, expected exactly %s" % (
+            sorted(seeded_tags), sorted(DEV_TAG.values())))
+    chk.extra["mc_counterexample_classes_defects_seeded"] = sorted(seeded_tags)
 
     # ------------- (G) replay the generated sequences
     def key(g):
@@ -448,7 +462,9 @@ def run(tier):
     chk.sample({"recorded": {"cfg": {k: r0["cfg"][k] for k in ("V", "R", "klen", "em", "stmf", "strf")},
                              "calls": [[c["call"], c["rel"], c["res"], sum(1 for x in c["items"] if x["eq"]), len(c["items"])] for c in c0][:8]}})
     chk.assumptions = ["perfect-cipher algebra: Dec(m,k,Enc(m,k,x)) = x, a wrong key never yields the plaintext (items >= 8 bytes)",
-                       "SASLprep is the identity on the password alphabets used (ASCII, Latin-1 letters, Cyrillic, CJK)"]
+                       "SASLprep is the identity on the password alphabets used (ASCII, Latin-1 letters, Cyrillic, CJK)",
+                       "revisions 2-4: an owner password whose PDFDocEncoding form is empty means 'no owner password'; the user password "
+                       "then also is the owner password (Algorithm 3 a) and the empty password is not (password relations rel.o / cfg.e.o)"]
     # ------------- (B) negative controls on a hand-written conforming run
     negative_controls(chk, w)
     if not quick and not chk.violations:
